@@ -519,7 +519,8 @@ var gnupgHomeDir string
 
 func gnupgHome() string {
 	if gnupgHomeDir == "" {
-		d, err := os.MkdirTemp("", "verif-gnupg-")
+		// below the process's scratch directory, which the run removes
+		d, err := os.MkdirTemp(engine.ProcScratch, "verif-gnupg-")
 		if err != nil {
 			return os.TempDir()
 		}
